@@ -344,6 +344,7 @@ func (r *Runner) builtin(ctx context.Context, pos syntax.Pos, name string, args 
 			// Note that "wait" without arguments always returns exit status zero.
 			for _, bg := range r.bgProcs {
 				<-bg.done
+				verifYield("wait-woken")
 			}
 			break
 		}
@@ -355,6 +356,7 @@ func (r *Runner) builtin(ctx context.Context, pos syntax.Pos, name string, args 
 			}
 			bg := r.bgProcs[pid-1]
 			<-bg.done
+			verifYield("wait-woken")
 			exit = *bg.exit
 		}
 	case "builtin":
